@@ -116,6 +116,19 @@ def t_pow2(eng, st, e):
   return p
 
 
+def syntactically_positive(t):
+  """Conservative syntactic test: numerals > 0, pow2(..) terms, products / sums of such."""
+  if z3.is_int_value(t):
+    return t.as_long() > 0
+  if z3.is_app(t):
+    d = t.decl()
+    if d.name() == "pow2":
+      return True      # pow2(e) >= 1 is only axiomatised for e >= 0; 2**e with e < 0 never reaches integer division
+    if d.kind() in (z3.Z3_OP_MUL, z3.Z3_OP_ADD) and t.num_args() > 0:
+      return all(syntactically_positive(c) for c in t.children())
+  return False
+
+
 def t_bit_length(eng, st, x):
   if isinstance(x, int):
     return x.bit_length()
@@ -503,6 +516,22 @@ def _s_member(eng, st, cont, item):
   return eng.contains(st, cont, item, None)
 
 
+@specfn("pm_has")
+def _s_pm_has(eng, st, m, px, py, idx):
+  return PM_HAS(m.term, to_z3(eng.need_int(st, px)), to_z3(eng.need_int(st, py)), to_z3(eng.need_int(st, idx)))
+
+
+@specfn("dict_has")
+def _s_dict_has(eng, st, d, k):
+  return eng.contains(st, d, k, None)
+
+
+@specfn("hex_of")
+def _s_hex_of(eng, st, x):
+  """format(x, 'x') (same term as the engine produces for the call)."""
+  return format_(eng, st, eng.need_int(st, x), "x", None)
+
+
 @specfn("int_le")
 def _s_int_le(eng, st, b):
   """int.from_bytes(b, 'little') (same term as the engine produces for the call)."""
@@ -747,10 +776,31 @@ def ref_contains(eng, st, cont, item):
   if is_int_like(item):
     f = z3.Function("member_int", V.RefSort, I, B)
     return f(cont.term, to_z3(item))
+  if isinstance(item, tuple) and len(item) == 2:
+    x, y = [V.coerce(("opt", "int"), c) for c in item]
+    f = z3.Function("member_point", V.RefSort, B, I, B, I, B)
+    m = f(cont.term, to_z3(x.isnone), to_z3(x.val), to_z3(y.isnone), to_z3(y.val))
+    # keys of the point map are public points (pairs of ints): infinity (None, None) is never a member
+    st.assume(z3.Implies(m, z3.And(z3.Not(to_z3(x.isnone)), z3.Not(to_z3(y.isnone)))))
+    return m
   raise_unsupported("membership in opaque reference")
 
 
+PM_HAS = z3.Function("spec.pm_has", V.RefSort, I, I, I, B)
+
+
 def ref_index(eng, st, base, idx, node):
+  """pks[point] for the abstract point -> [signature indexes] map (ref:PointMap): a list of ints each of which is
+  registered under that point (ghost relation pm_has(map, px, py, index))."""
+  if base.cls == "PointMap" and isinstance(idx, tuple) and len(idx) == 2:
+    eng.implicit(st, "KeyError", ref_contains(eng, st, base, idx), node, "point not in map")
+    x, y = [eng.need_int(st, c, node) for c in idx]
+    lst = eng.fresh_heap(st, "list[int]", "pks_entry")
+    o = st.deref(lst)
+    j = z3.Int(V.fresh_name("pj"))
+    st.assume(z3.ForAll([j], z3.Implies(z3.And(j >= 0, j < to_z3(o.length)),
+                                        PM_HAS(base.term, to_z3(x), to_z3(y), z3.Select(o.rep, j)))))
+    return lst
   raise_unsupported("subscript of opaque reference")
 
 
@@ -932,6 +982,8 @@ def call_builtin(eng, st, name, args, kwargs, node):
   if name in ("list", "tuple"):
     if not args:
       return st.alloc(HList(items=[])) if name == "list" else ()
+    if isinstance(args[0], Opaque):
+      return Opaque(f"{name}({args[0].why})")
     return to_sequence(eng, st, args[0], name, node)
   if name in ("set", "frozenset"):
     if not args:
@@ -1436,7 +1488,26 @@ def havoc_dict(eng, st, o, name, decl_t=None):
   o.items, o.dom, o.val_t, o.rep = None, z3.Array(V.fresh_name(name + ".dom"), I, B), vt, V.fresh_rep(vt, name)
 
 
+def _dict_spec_view(eng, st, o):
+  """Array view (dom, val_t, rep) of a concrete-structure dict with int keys, for specification expressions."""
+  vt = None
+  for v in o.items.values():
+    tv = eng.value_type(st, v)
+    vt = tv if vt is None else V.join_types(vt, tv)
+  vt = vt or "int"
+  dom = z3.K(I, z3.BoolVal(False))
+  rep = V.fresh_rep(vt, "dview")
+  for k, v in o.items.items():
+    kk = to_z3(eng.need_int(st, unhash(k)))
+    dom = z3.Store(dom, kk, z3.BoolVal(True))
+    rep = V.store_rep(vt, rep, kk, V.coerce(vt, v))
+  return dom, vt, rep
+
+
 def dict_contains(eng, st, o, item):
+  if not o.symbolic and st.spec and is_sym(item) and all(is_int_like(unhash(k)) for k in o.items):
+    dom, vt, rep = _dict_spec_view(eng, st, o)
+    return z3.Select(dom, to_z3(item))
   if not o.symbolic:
     hk = hashable(eng, st, item)
     if not isinstance(hk, HK) and _all_concrete_keys(o.items):
@@ -1446,6 +1517,9 @@ def dict_contains(eng, st, o, item):
 
 
 def dict_get(eng, st, o, key, node):
+  if not o.symbolic and st.spec and is_sym(key) and all(is_int_like(unhash(k)) for k in o.items):
+    dom, vt, rep = _dict_spec_view(eng, st, o)
+    return V.select_rep(vt, rep, to_z3(key))
   if not o.symbolic:
     hk = hashable(eng, st, key)
     if not isinstance(hk, HK) and _all_concrete_keys(o.items):
@@ -1659,7 +1733,53 @@ def comprehension(eng, st, node, kind):
     t = eng.value_type(st, elt)
     rep = _lambda_rep(t, elt, j)
     return st.alloc(HList(items=None, length=n, elem_t=t, rep=rep))
+  if kind == "list" and gen.ifs and seq[0] == "slist" and isinstance(node.elt, ast.Name) and isinstance(
+      gen.target, ast.Name) and node.elt.id == gen.target.id:
+    return filtered_sublist(eng, st, node, gen, seq[1])
   raise_unsupported("comprehension over symbolic sequence with filter")
+
+
+def filtered_sublist(eng, st, node, gen, src):
+  """[x for x in src if pred(x)] over a symbolic list: a new list `out` of length m with a strictly increasing index map
+  fidx: out[j] == src[fidx(j)], pred holds on every element, and every src element satisfying pred occurs."""
+  from .engine import Frame
+  eng.used_theories.add("filter comprehension: order-preserving sublist (index map strictly increasing, sound and complete)")
+  n = to_z3(src.length)
+  m = z3.Int(V.fresh_name("flt.len"))
+  fidx = z3.Function(V.fresh_name("flt.idx"), I, I)
+  rep = V.fresh_rep(src.elem_t, "flt")
+
+  def pred_at(idx_term):
+    fr = Frame({}, st.frame, st.frame.module, fname=st.frame.fname)
+    st.frames.append(fr)
+    st.spec_depth += 1
+    st.nofresh += 1
+    n0 = len(st.pc)
+    try:
+      eng.assign(st, gen.target, V.select_rep(src.elem_t, src.rep, idx_term))
+      ps = [eng.truthy(st, eng.ev(c, st)) for c in gen.ifs]
+    finally:
+      st.nofresh -= 1
+      st.spec_depth -= 1
+      st.frames.pop()
+    axioms = st.pc[n0:]
+    del st.pc[n0:]
+    return to_z3(eng.and_(*ps)), axioms
+  j, j2, i = z3.Int(V.fresh_name("fj")), z3.Int(V.fresh_name("fj2")), z3.Int(V.fresh_name("fi"))
+  pj, ax1 = pred_at(fidx(j))
+  pi, ax2 = pred_at(i)
+  for ax in ax1:
+    st.assume(z3.ForAll([j], ax))
+  for ax in ax2:
+    st.assume(z3.ForAll([i], ax))
+  st.assume(m >= 0, m <= n)
+  same = to_z3(eng.eq(st, V.select_rep(src.elem_t, rep, j), V.select_rep(src.elem_t, src.rep, fidx(j))))
+  st.assume(z3.ForAll([j], z3.Implies(z3.And(j >= 0, j < m), z3.And(fidx(j) >= 0, fidx(j) < n, same, pj))))
+  st.assume(z3.ForAll([j, j2], z3.Implies(z3.And(j >= 0, j < j2, j2 < m), fidx(j) < fidx(j2))))
+  st.assume(z3.ForAll([i], z3.Implies(z3.And(i >= 0, i < n, pi), z3.Exists([j], z3.And(j >= 0, j < m, fidx(j) == i)))))
+  o = HList(items=None, length=m, elem_t=src.elem_t, rep=rep)
+  o.filter_idx = fidx
+  return st.alloc(o)
 
 
 def concretize(eng, st, term, max_cases=10):
@@ -1934,6 +2054,11 @@ def ref_method(eng, st, selfv, name, args, kwargs, node):
   rt = eng.cur.ref_methods.get((selfv.cls, name)) if eng.cur is not None and hasattr(eng.cur, "ref_methods") else None
   if rt is not None:
     ens = []
+    if isinstance(rt, str) and rt.startswith("pure:"):
+      # deterministic method of an opaque object: an uninterpreted function of the receiver (and int arguments)
+      _, sort, fname = rt.split(":")
+      eng.used_theories.add(f"{selfv.cls}.{name} modelled as a pure function spec.{fname}(receiver) that does not raise")
+      return _uf(eng, st, "spec." + fname, [selfv], B if sort == "bool" else I)
     if isinstance(rt, tuple):
       rt, ens = rt
     eng.used_theories.add(f"user-supplied {selfv.cls}.{name}: returns an arbitrary value of type {rt}"
